@@ -3,3 +3,7 @@ import MhlModel.Basic
 import MhlModel.Gen.Consts
 import MhlModel.Codec
 import MhlModel.Hashing
+import MhlModel.Tree
+import MhlModel.History
+import MhlModel.Seal
+import MhlModel.Commands
